@@ -118,13 +118,15 @@ func descBytes(dk string, r *rng) ([]*astits.Descriptor, []int) {
 	addUD := func(n int) {
 		tag := uint8(0x80 + r.intn(0x7f))
 		data := r.bytes(n)
-		ds = append(ds, &astits.Descriptor{Tag: tag, Length: uint8(n), UserDefined: data})
+		// the struct's redundant Length as a parser of another stream may have left it (right, 0, too small, too large): the PMT's lengths
+		// follow the bytes written
+		ds = append(ds, &astits.Descriptor{Tag: tag, Length: uint8(r.pick(n, n, 0, n/2, n+3, 255)), UserDefined: data})
 		flat = append(flat, int(tag), n)
 		flat = append(flat, ints(data)...)
 	}
 	addSI := func() {
 		ct := uint8(r.intn(256))
-		ds = append(ds, &astits.Descriptor{Tag: astits.DescriptorTagStreamIdentifier, Length: 1, StreamIdentifier: &astits.DescriptorStreamIdentifier{ComponentTag: ct}})
+		ds = append(ds, &astits.Descriptor{Tag: astits.DescriptorTagStreamIdentifier, Length: uint8(r.pick(1, 1, 0, 2, 9)), StreamIdentifier: &astits.DescriptorStreamIdentifier{ComponentTag: ct}})
 		flat = append(flat, astits.DescriptorTagStreamIdentifier, 1, int(ct))
 	}
 	switch {
